@@ -258,9 +258,13 @@ pub fn record_c01(runs: usize, path: &str) {
         let dag = {
             let mut g = Gen::new(&mut rng, if use_jets { jets } else { &empty }, budget);
             g.allow_fail = attempts % 5 == 0;
+            g.share_witness = attempts % 3 == 0;
             let root = g.expr(&Ty::Unit, &Ty::Unit, 8);
             g.finish(root)
         };
+        // every fourth program: two witnesses whose (small, sum-rich) types are forced by the program, so that compact
+        // witness values of every type shape are followed by further data in the stream
+        let dag = if attempts % 4 == 1 { typed_witness_pair(&rand_small_ty(&mut rng, 3), &Ty::word(rng.below(4))) } else { dag };
         let n = dag.as_array().unwrap().len();
         let mut ty = vec![J::Null; n];
         ty[n - 1] = json!([["1"], ["1"]]);
@@ -327,6 +331,21 @@ pub fn record_c02(runs: usize, path: &str) {
         }
     }
     let _ = std::fs::remove_file(&tmp);
+    // one canonicity rule broken at a time on valid Elements programs (the re-encoding clause judges them)
+    let (mut made, mut dups) = (0, 0);
+    for attempt in 0..(runs * 30) {
+        if pool.is_empty() || (made >= runs / 3 && dups >= runs / 12) { break; }
+        let force_dup = dups < runs / 12 && attempt % 2 == 0;
+        if !force_dup && made >= runs / 3 { continue; }
+        let (p, w) = pool[rng.below(pool.len())].clone();
+        let Ok(r) = RedeemNode::decode::<_, _, simplicity::jet::Elements>(BitIter::from(&p[..]), BitIter::from(&w[..])) else { continue };
+        // compact widths of the witnesses in stream order = encoding order
+        let widths: Vec<usize> = { use simplicity::dag::MaxSharing; (&*r).post_order_iter::<MaxSharing<simplicity::node::Redeem>>().filter_map(|it| if let Inner::Witness(v) = it.node.inner() { Some(v.compact_len()) } else { None }).collect() };
+        if let Some((what, pb, wb)) = structural_mutation(&mut rng, &p, &w, &widths, force_dup) {
+            out.emit(&json!({"ev": "decode", "pb": bits_of_bytes(&pb), "wb": bits_of_bytes(&wb), "nbytes": pb.len() + wb.len(), "mutation": what, "got": decode_all(&pb, &wb)}));
+            if force_dup { dups += 1; } else { made += 1; }
+        }
+    }
     for k in 0..runs {
         let (pb, wb): (Vec<u8>, Vec<u8>) = if k % 3 == 0 || pool.is_empty() {
             let n = rng.range(1, 40);
@@ -346,5 +365,173 @@ pub fn record_c02(runs: usize, path: &str) {
             (p, w)
         };
         out.emit(&json!({"ev": "decode", "pb": bits_of_bytes(&pb), "wb": bits_of_bytes(&wb), "nbytes": pb.len() + wb.len(), "got": decode_all(&pb, &wb)}));
+    }
+}
+
+// ---------------------------------------------------------------- structural mutations of valid encodings
+/// one entry of an encoded node list: the code bits in front of the back references, the back references
+/// (distances, 1-based as encoded), and the payload bits after them
+#[derive(Clone)]
+struct LEntry { head: Vec<bool>, refs: Vec<usize>, tail: Vec<bool>, is_witness: bool, is_hidden: bool }
+
+fn nat_bits(n: usize) -> Vec<bool> {
+    let mut buf: Vec<u8> = vec![];
+    let nb = { let mut w = simplicity::BitWriter::new(&mut buf); let nb = simplicity::encode_natural(n, &mut w).unwrap(); w.flush_all().unwrap(); nb };
+    BitIter::from(&buf[..]).take(nb).collect()
+}
+/// parse a (valid, Elements family) program encoding into its entries
+fn parse_list(pb: &[u8]) -> Option<Vec<LEntry>> {
+    let mut it = BitIter::from(pb);
+    let len = it.read_natural::<usize>(None).ok()?;
+    let mut out = vec![];
+    let mut bit = |it: &mut BitIter<_>| -> Option<bool> { it.next() };
+    for i in 0..len {
+        let b0 = bit(&mut it)?;
+        let mut e = LEntry { head: vec![b0], refs: vec![], tail: vec![], is_witness: false, is_hidden: false };
+        if b0 {
+            let b1 = bit(&mut it)?; e.head.push(b1);
+            if b1 {
+                // jet: let the crate find the end of the code
+                let before = it.n_total_read();
+                let mut probe = it.clone();
+                simplicity::jet::Elements::decode(&mut probe).ok()?;
+                let n = probe.n_total_read() - before;
+                for _ in 0..n { e.tail.push(bit(&mut it)?); }
+            } else {
+                let n = it.read_natural::<usize>(Some(32)).ok()?;
+                e.tail.extend(nat_bits(n));
+                for _ in 0..(1usize << (n - 1)) { e.tail.push(bit(&mut it)?); }
+            }
+        } else {
+            let (b1, b2) = (bit(&mut it)?, bit(&mut it)?); e.head.extend([b1, b2]);
+            if b1 && b2 {
+                let b3 = bit(&mut it)?; e.head.push(b3);
+                if b3 { e.is_witness = true; } else { e.is_hidden = true; for _ in 0..256 { e.tail.push(bit(&mut it)?); } }
+            } else {
+                let (b3, b4) = (bit(&mut it)?, bit(&mut it)?); e.head.extend([b3, b4]);
+                let nrefs = match (b1, b2) { (false, false) => 2, (false, true) => 1, _ => if b3 && b4 { 1 } else { 0 } };
+                for _ in 0..nrefs { e.refs.push(it.read_natural::<usize>(Some(i.max(1))).ok()?); }
+                if b1 && !b2 && b3 && !b4 { for _ in 0..512 { e.tail.push(bit(&mut it)?); } }   // fail entropy
+            }
+        }
+        out.push(e);
+    }
+    Some(out)
+}
+fn serialize_list(l: &[LEntry]) -> Vec<u8> {
+    let mut bits = nat_bits(l.len());
+    for e in l { bits.extend(&e.head); for r in &e.refs { bits.extend(nat_bits(*r)); } bits.extend(&e.tail); }
+    bytes_from_bits(&bits)
+}
+/// absolute child indices (0-based) of entry i
+fn abs_refs(l: &[LEntry], i: usize) -> Vec<usize> { l[i].refs.iter().map(|d| i - d).collect() }
+fn set_abs(l: &mut [LEntry], i: usize, k: usize, child: usize) { l[i].refs[k] = i - child; }
+
+/// One canonicity rule broken at a time, starting from a valid program (program bytes, witness bytes, compact
+/// widths of the witnesses in stream order).  Returns (what, program, witness).
+fn structural_mutation(rng: &mut Rng, pb: &[u8], wb: &[u8], wit_widths: &[usize], force_dup: bool) -> Option<(String, Vec<u8>, Vec<u8>)> {
+    let l = parse_list(pb)?;
+    if serialize_list(&l) != pb { return None; }            // the parser must reproduce the input exactly
+    let n = l.len();
+    let wbits: Vec<bool> = BitIter::from(wb).collect();
+    match if force_dup { 0 } else { [0usize, 1, 2, 3, 3][rng.below(5)] } {
+        // an entry written twice, one later reference redirected to the copy (witness entries: the value is repeated too)
+        0 => {
+            let users: Vec<(usize, usize, usize)> = (0..n).flat_map(|i| abs_refs(&l, i).into_iter().enumerate().map(move |(k, c)| (i, k, c)).collect::<Vec<_>>()).collect();
+            if users.is_empty() { return None; }
+            let wusers: Vec<(usize, usize, usize)> = users.iter().copied().filter(|u| l[u.2].is_witness).collect();
+            let (ui, uk, c) = if !wusers.is_empty() && rng.bool() { wusers[rng.below(wusers.len())] } else { users[rng.below(users.len())] };
+            // copy entry c to position c + 1
+            let mut m: Vec<LEntry> = vec![];
+            let mut children: Vec<Vec<usize>> = (0..n).map(|i| abs_refs(&l, i)).collect();
+            for ch in children.iter_mut() { for x in ch.iter_mut() { if *x > c { *x += 1; } } }
+            for i in 0..n {
+                m.push(l[i].clone());
+                if i == c { m.push(l[c].clone()); }
+            }
+            // rewrite references with the new numbering; the chosen user points to the copy
+            let newpos = |i: usize| if i > c { i + 1 } else { i };
+            for i in 0..n {
+                let ni = newpos(i);
+                for k in 0..children[i].len() {
+                    let mut child = children[i][k];
+                    if i == ui && k == uk { child = c + 1; }
+                    if child >= ni { return None; }
+                    set_abs(&mut m, ni, k, child);
+                }
+            }
+            let copy_children: Vec<usize> = abs_refs(&l, c);
+            for (k, ch) in copy_children.iter().enumerate() { set_abs(&mut m, c + 1, k, *ch); }
+            // put the list into canonical (post-order from the root) order again, so that only the sharing rule is broken
+            let m = {
+                let nn = m.len();
+                let ch: Vec<Vec<usize>> = (0..nn).map(|i| abs_refs(&m, i)).collect();
+                let mut order: Vec<usize> = vec![];
+                let mut seen = vec![false; nn];
+                let mut stack: Vec<(usize, usize)> = vec![(nn - 1, 0)];
+                while let Some((node, k)) = stack.pop() {
+                    if k == 0 && seen[node] { continue; }
+                    if k < ch[node].len() { stack.push((node, k + 1)); if !seen[ch[node][k]] { stack.push((ch[node][k], 0)); } }
+                    else if !seen[node] { seen[node] = true; order.push(node); }
+                }
+                if order.len() != nn { return None; }
+                let mut pos = vec![0usize; nn];
+                for (p, o) in order.iter().enumerate() { pos[*o] = p; }
+                let mut out: Vec<LEntry> = order.iter().map(|o| m[*o].clone()).collect();
+                for (p, o) in order.iter().enumerate() { for (k, c0) in ch[*o].iter().enumerate() { if pos[*c0] >= p { return None; } set_abs(&mut out, p, k, pos[*c0]); } }
+                // the witness stream follows the entry order: only handled when the witness order did not change
+                let worder_old: Vec<usize> = (0..nn).filter(|i| m[*i].is_witness).collect();
+                let worder_new: Vec<usize> = order.iter().copied().filter(|i| m[*i].is_witness).collect();
+                if worder_old != worder_new { return None; }
+                out
+            };
+            // witness stream: repeat the value of a duplicated witness entry right after the original
+            let mut w2 = wbits.clone();
+            if l[c].is_witness {
+                let order: Vec<usize> = (0..n).filter(|i| l[*i].is_witness).collect();
+                let pos = order.iter().position(|i| *i == c)?;
+                let start: usize = wit_widths[..pos].iter().sum();
+                let width = *wit_widths.get(pos)?;
+                let val: Vec<bool> = wbits.get(start..start + width)?.to_vec();
+                let total: usize = wit_widths.iter().sum();
+                w2 = wbits[..start + width].to_vec(); w2.extend(val); w2.extend(&wbits[start + width..total]);
+            }
+            Some((format!("duplicate entry {}{}", c, if l[c].is_witness { " (witness, same value)" } else if l[c].is_hidden { " (hidden)" } else { "" }), serialize_list(&m), bytes_from_bits(&w2)))
+        }
+        // two adjacent entries that do not refer to each other, swapped
+        1 => {
+            let cands: Vec<usize> = (0..n.saturating_sub(1)).filter(|i| !abs_refs(&l, i + 1).contains(i) && !l[*i].is_witness && !l[i + 1].is_witness).collect();
+            if cands.is_empty() { return None; }
+            let i = cands[rng.below(cands.len())];
+            let children: Vec<Vec<usize>> = (0..n).map(|k| abs_refs(&l, k)).collect();
+            let map = |x: usize| if x == i { i + 1 } else if x == i + 1 { i } else { x };
+            let mut m = l.clone();
+            m.swap(i, i + 1);
+            for k in 0..n {
+                let nk = map(k);
+                for (j, ch) in children[k].iter().enumerate() { let c = map(*ch); if c >= nk { return None; } set_abs(&mut m, nk, j, c); }
+            }
+            Some((format!("swap entries {} and {}", i, i + 1), serialize_list(&m), wb.to_vec()))
+        }
+        // an entry nobody uses, before the root
+        2 => {
+            let mut m = l.clone();
+            let extra = LEntry { head: vec![false, true, false, false, true], refs: vec![], tail: vec![], is_witness: false, is_hidden: false }; // unit
+            let children: Vec<Vec<usize>> = (0..n).map(|k| abs_refs(&l, k)).collect();
+            m.insert(n - 1, extra);
+            for (j, ch) in children[n - 1].iter().enumerate() { set_abs(&mut m, n, j, *ch); }
+            Some(("unused entry".to_string(), serialize_list(&m), wb.to_vec()))
+        }
+        // a stray bit in the padding, or a trailing zero byte, of program or witness
+        _ => {
+            let nbits = { let mut b = nat_bits(l.len()); for e in &l { b.extend(&e.head); for r in &e.refs { b.extend(nat_bits(*r)); } b.extend(&e.tail); } b.len() };
+            let mut p = pb.to_vec();
+            let mut w = wb.to_vec();
+            match rng.below(3) {
+                0 if nbits % 8 != 0 => { let last = p.len() - 1; p[last] |= 1; Some(("program padding bit".to_string(), p, w)) }
+                1 => { w.push(0); Some(("trailing witness byte".to_string(), p, w)) }
+                _ => { p.push(0); Some(("trailing program byte".to_string(), p, w)) }
+            }
+        }
     }
 }
